@@ -38,6 +38,7 @@ func checkC10(r *Run) {
 }
 
 func ruleCopyBeforePublish(r *Run, p *Prog, w *ssa.Function) {
+	w = p.View(w, "", nil)
 	var set *ssa.Call
 	eachInstr(w, func(b *ssa.BasicBlock, i int, in ssa.Instruction) {
 		if c, ok := in.(*ssa.Call); ok && c.Call.IsInvoke() && c.Call.Method.Name() == "Set" {
@@ -147,7 +148,8 @@ func ruleSingleConsumer(r *Run, p *Prog) {
 		})
 	}
 	r.Ob("SINGLE", "go-poll/count", p.Pos(poll.Pos()), nGo == 1, true, fmt.Sprintf("%d go statement(s) start the consumer (exactly one expected: deliveries must happen one at a time)", nGo))
-	// Next is invoked only from poll; TryNext only from the two Next implementations
+	// Next is invoked only from poll (or its private helpers); TryNext only from the two Next implementations
+	pollSet := p.exclusiveHelpers(poll)
 	for _, f := range p.ModFns {
 		rel := pkgRel(f)
 		if rel != "diode" && rel != diodesRel {
@@ -160,7 +162,7 @@ func ruleSingleConsumer(r *Run, p *Prog) {
 			}
 			switch c.Call.Method.Name() {
 			case "Next":
-				okc := f == poll
+				okc := pollSet[f]
 				r.Ob("SINGLE", FnName(f)+"/calls-Next", p.Pos(c.Pos()), okc, true, tern(okc, "Next() called by the single consumer", "Next() is called from "+FnName(f)+": a second consumer"))
 			case "TryNext":
 				okc := f.Name() == "Next" && rel == diodesRel
